@@ -29,6 +29,7 @@ type vfC03Login struct {
 }
 
 type vfC03Case struct {
+	Navigations int
 	PerRequest, EncodeState bool
 	PKCE, Store             string
 	Browsers, Logins        int
@@ -76,7 +77,7 @@ func vfC03(w *vfWorld) {
 	cfg.EncodeState = t.Bool("c03.encode")
 	cfg.PKCE = vfPick(t, "c03.pkce", []string{"", "S256", "plain"})
 	cfg.Store = vfPick(t, "c03.store", []string{"cookie", "cookie", "redis"})
-	cfg.SkipButton = true
+	cfg.SkipButton = t.Bool("c03.skipbutton") // false: protected paths and /sign_in show the sign-in page, logins start at /start only
 	cfg.CookieExpire = vfPick(t, "c03.expire", []time.Duration{4 * time.Hour, 0})
 	cs.PerRequest, cs.EncodeState, cs.PKCE, cs.Store = cfg.CSRFPerRequest, cfg.EncodeState, cfg.PKCE, cfg.Store
 	w.StartIdP()
@@ -97,7 +98,12 @@ func vfC03(w *vfWorld) {
 	nl := 2 + t.Choice("c03.logins", 3)
 	for i := 0; i < nl; i++ {
 		b := browsers[t.Choice("c03.whichb", nb)]
-		target := vfPick(t, "c03.start", []string{pp + "/start?rd=%2Fapp%2F" + fmt.Sprint(i), "/app/deep/" + fmt.Sprint(i) + "?x=1", pp + "/sign_in?rd=%2Fs" + fmt.Sprint(i)})
+		target := vfPick(t, "c03.start", []string{pp + "/start?rd=%2Fapp%2F" + fmt.Sprint(i), "/app/deep/" + fmt.Sprint(i) + "?x=1", pp + "/sign_in?rd=%2Fs" + fmt.Sprint(i),
+			// (the state is "nonce:redirect": a redirect with colons of its own is an ordinary application URL)
+			pp + "/start?rd=%2Fcal%3Ffrom%3D09%3A30%26to%3D17%3A45%26i%3D" + fmt.Sprint(i), "/wiki/Talk:Page_" + fmt.Sprint(i) + "?t=10:00"})
+		if !cfg.SkipButton && !strings.HasPrefix(target, pp+"/start") {
+			target = pp + "/start?rd=%2Fapp%2Fbutton%2F" + fmt.Sprint(i)
+		}
 		lg, r := b.StartLogin(rep, target, users[i%2])
 		if lg == nil {
 			w.fatalf("c03: start %q failed: %d", target, r.Status)
@@ -112,6 +118,26 @@ func vfC03(w *vfWorld) {
 		}
 	}
 	cs.Logins = len(logins)
+	// ---- while the logins are outstanding the browsers keep browsing: pages that start no login must leave the login
+	// state of the outstanding ones alone ----
+	navigated := map[*vfBrowser]bool{}
+	for _, b := range browsers {
+		if !t.Bool("c03.navigate") {
+			continue
+		}
+		for k := 0; k < 1+t.Choice("c03.nnav", 2); k++ {
+			target := vfPick(t, "c03.nav", []string{pp + "/sign_in", "/app/other/page", pp + "/auth", "/robots.txt", pp + "/userinfo", "/app/other/page"})
+			if cfg.SkipButton && (target == pp+"/sign_in" || strings.HasPrefix(target, "/app/")) {
+				continue // would start a new login instead of showing the sign-in page
+			}
+			r := b.GET(rep, target)
+			if r.Status == 302 && strings.Contains(r.Location(), "/authorize") {
+				w.fatalf("c03: navigation %q started a login", target)
+			}
+			navigated[b] = true
+			cs.Navigations++
+		}
+	}
 	freshCode := func(l *vfC03Login) string {
 		_, code := w.idp.Authorize(l.Lg.AuthURL, users[l.Idx%2])
 		return code
@@ -154,6 +180,9 @@ func vfC03(w *vfWorld) {
 				i, l.B.name, cfg.CSRFPerRequest, len(logins), order, r.Status)
 		case !holdsOwn && ok:
 			w.violate("C03", "session-without-own-cookie", "jar", "login #%d completed although the jar no longer holds its CSRF cookie", i)
+		}
+		if navigated[l.B] && !holdsOwn && (cfg.CSRFPerRequest || lastOf[l.B] == i) {
+			w.violate("C03", "csrf-cookie-lost-by-unrelated-navigation", fmt.Sprintf("perreq=%v", cfg.CSRFPerRequest), "login #%d of %s is outstanding, the browser visited pages that start no login, and its jar no longer holds that login's CSRF cookie %q", i, l.B.name, vfTrunc(l.Lg.CSRFName, 40))
 		}
 		if cfg.CSRFPerRequest && !holdsOwn {
 			w.violate("C03", "per-request-cookie-lost", "", "with per-request CSRF cookies the jar of %s lost the cookie of outstanding login #%d", l.B.name, i)
